@@ -8,12 +8,12 @@ LEVEL_NOTE = ("Coq theorem C14_holds, for every number of processes and every in
               "produced only by the holder; a process whose bind is refused does nothing but end; after the holder's exit or kill the next process acquires at once. Partial: the OS provides "
               "the bind (exclusive per address, freed at process death). Tied by real processes: a holder parked right after acquisition (verif::point), 2-6 contenders of all four APIs at "
               "random offsets (must exit non-zero with a lock error, start no executable, leave the output directory byte-identical), holder ended by exit / failure / SIGKILL followed by "
-              "an immediate invocation (must succeed), simultaneous starts (exactly one may pass), and briefly held locks (a contender whose logged acquisition attempt falls inside the "
+              "an immediate invocation (must succeed), simultaneous starts (exactly one may pass), a run killed while its command is still executing (the orphan must not keep the lock), and briefly held locks (a contender whose logged acquisition attempt falls inside the "
               "holder's observed tenure must fail even though the holder releases 0.3-0.8 s later).")
 TRUSTED = ["Coq 8.16.1 kernel; no axioms", "POSIX: bind on a listening address is exclusive; the listener is released when the process dies", "hooks: after_lock_* points (guarded)",
            "that each API's first action is the acquisition is what the tie checks (the model's op lists start with Start = bind)", "modelled, not verified: the Rust source"]
 RULE = ("rounds: holder API in {run, checkpoint update, checkpoint delete, out delete}, 2-6 contenders with random APIs and start offsets 0-300 ms, holder end in {exit, failing run, SIGKILL}; "
-        "plus simultaneous-start rounds of 3-6 processes and brief-hold rounds (holder parked 300-800 ms, one contender with -v whose 'Acquiring lock' timestamp is compared with the tenure); non-trivial = every round (>=2 contenders); distinct by round parameters")
+        "plus orphan rounds (run killed by SIGKILL/SIGTERM while its command sleeps 2.5 s, next invocation at once), simultaneous-start rounds of 3-6 processes and brief-hold rounds (holder parked 300-800 ms, one contender with -v whose 'Acquiring lock' timestamp is compared with the tenure); non-trivial = every round (>=2 contenders); distinct by round parameters")
 
 CFG = {"targets": [{"path": "a"}, {"path": "b", "uses": ["a"]}]}
 APIS = {"run": ["run", "-c", "build"], "checkpoint_update": ["checkpoint", "update"], "checkpoint_delete": ["checkpoint", "delete"], "out_delete": ["out", "delete", "--all"]}
@@ -158,6 +158,37 @@ def brief_hold_round(ctx, rng, holder_api, hold_ms):
     finally:
         rr.close()
 
+def orphan_round(ctx, rng, end_kind):
+    """The holder is a `run` whose command is still executing when monorail is killed (or whose command outlives nothing - control):
+    the lock belongs to the monorail process, not to what it spawned, so the next invocation acquires at once even though the
+    orphaned command is still alive."""
+    rr = runscen.RunRepo(ctx, CFG, commands=["build"])
+    try:
+        vlib.monorail(rr.repo, "checkpoint", "update"); rr.clear_traces()
+        rr.script = {"*": {"sleep_ms": 2500}}; rr.write_script()
+        h = spawn(rr, "run")
+        t0 = time.time()
+        while not rr.traces() and time.time() - t0 < 15: time.sleep(0.02)
+        started = bool(rr.traces())
+        case = {"orphan": end_kind}
+        if not started:
+            h.kill(); h.communicate(); ctx.record(case, True, False, False, True, detail={"what": "the holder's command never started"}); return
+        h.send_signal(signal.SIGKILL if end_kind == "sigkill" else signal.SIGTERM); h.communicate()
+        t_dead = time.time()
+        nxt = spawn(rr, rng.choice(["checkpoint_update", "out_delete", "checkpoint_delete"]))
+        so, se = nxt.communicate(timeout=60)
+        orphan_alive = any(not t.get("end_ns") for t in rr.traces()) and time.time() - t_dead < 2.4
+        ok = nxt.returncode == 0 and not lock_error(se)
+        v = ctx.model.call("lock", 2, [[0, 0, 1], [2, 0, 0], [0, 1, 1]], [], [])
+        ctx.count("orphan_%s" % end_kind); ctx.count("orphan_alive" if orphan_alive else "orphan_already_gone")
+        ctx.record(case, True, bool(v[2]) and ok, ok, True,
+                   sample={"holder": "run killed while its command runs", "signal": end_kind, "next_rc": nxt.returncode, "orphan_alive": orphan_alive},
+                   detail={"what": "after the holder was killed the next invocation must acquire the lock at once, whatever the holder had spawned",
+                           "rc": nxt.returncode, "lock_error": lock_error(se), "orphan_alive": orphan_alive, "stderr": se.decode("utf-8", "replace")[-300:]})
+        time.sleep(max(0, 2.6 - (time.time() - t0)))      # let the orphan finish before the directory goes away
+    finally:
+        rr.close()
+
 def simultaneous_round(ctx, rng, n):
     rr = runscen.RunRepo(ctx, CFG, commands=["build"])
     try:
@@ -189,12 +220,15 @@ def run(ctx, scale):
             holder_round(ctx, rng, api, rng.randint(2, 6), end)
         for api in (["checkpoint_update", "run"] if ctx.quick() else list(APIS)):
             brief_hold_round(ctx, rng, api, rng.choice([300, 450, 600, 800]))
+        for kind in ["sigkill", "sigterm"]:
+            orphan_round(ctx, rng, kind)
         for n in ([3, 5] if ctx.quick() else [3, 4, 5, 6]):
             simultaneous_round(ctx, rng, n)
 
 def replay(ctx, c):
     c = c.get("case", c)
-    if "brief_hold" in c: brief_hold_round(ctx, ctx.rng, c["brief_hold"], c["hold_ms"])
+    if "orphan" in c: orphan_round(ctx, ctx.rng, c["orphan"])
+    elif "brief_hold" in c: brief_hold_round(ctx, ctx.rng, c["brief_hold"], c["hold_ms"])
     elif "simultaneous" in c: simultaneous_round(ctx, ctx.rng, c["simultaneous"])
     else: holder_round(ctx, ctx.rng, c["holder"], c["contenders"], c["end"])
     return {"spec_failures": [d for _, d in ctx.spec_failures][:3], "disagreements": [d for _, d in ctx.tie_breaks][:3]}
